@@ -18,6 +18,7 @@ import (
 	"crypto/tls"
 	"fmt"
 	"net/http"
+	"strings"
 
 	"github.com/hprose/hprose-golang/v3/internal/convert"
 	"github.com/hprose/hprose-golang/v3/rpc/core"
@@ -97,6 +98,20 @@ func (trans *Transport) Transport(ctx context.Context, request []byte) (response
 			clientContext.Items().Set("httpResponseHeaders", getResponseHeader(&resp.Header))
 		}
 		body := resp.Body()
+		switch encoding := strings.ToLower(string(resp.Header.Peek("Content-Encoding"))); encoding {
+		case "", "identity":
+		case "gzip":
+			// SetCompression(true) asks for it; fasthttp leaves the decoding to its caller
+			if body, err = resp.BodyGunzip(); err != nil {
+				return nil, err
+			}
+		case "deflate":
+			if body, err = resp.BodyInflate(); err != nil {
+				return nil, err
+			}
+		default:
+			return nil, fmt.Errorf("hprose/rpc/http/fasthttp: unsupported Content-Encoding %q", encoding)
+		}
 		response := make([]byte, len(body))
 		copy(response, body)
 		return response, nil
